@@ -132,9 +132,9 @@ def nat_orth_unocc(rng):
 # =================================================================================================
 
 
-def _H_env(symmetric_h=True):
+def _H_env(symmetric_h=True, phi_generic=False):
     ld = H.make_loader()
-    scf, at, pots = H.make_scf(ld, Nk=2, Nspin=2, symmetric_h=symmetric_h)
+    scf, at, pots = H.make_scf(ld, Nk=2, Nspin=2, symmetric_h=symmetric_h, phi_generic=phi_generic)
     dft = ld.load("eminus.dft")
     return ld, scf, at, pots, dft
 
@@ -157,8 +157,8 @@ def sym_H_linear():
     return True, ""
 
 
-def sym_H_hermitian():
-    ld, scf, at, pots, dft = _H_env()
+def sym_H_hermitian(phi_generic=False):
+    ld, scf, at, pots, dft = _H_env(phi_generic=phi_generic)
     a = [H.W_stack("A", ik, 2) for ik in range(2)]
     b = [H.W_stack("B", ik, 2) for ik in range(2)]
     for ik in range(2):
@@ -169,6 +169,11 @@ def sym_H_hermitian():
                 d = nc.normalise(l.val - r.val)
                 return False, f"<a|H b> != <H a|b> (ik={ik}, spin={s}); difference {d!r}"
     return True, ""
+
+
+def sym_H_hermitian_any_field():
+    """Hermiticity for an ARBITRARY complex reciprocal-space Hartree field (no assumption that its real-space image is real)."""
+    return sym_H_hermitian(phi_generic=True)
 
 
 def sym_H_hermitian_needs_symmetric_h():
@@ -182,8 +187,7 @@ def sym_H_hermitian_needs_symmetric_h():
 
 
 def _native_scf(Nspin=1, xc="lda,pw", s=(7, 5, 5), atom="He"):
-    """Small converged-enough SCF on an ODD grid (on even grids with weight on the Nyquist plane the effective potential is
-    not real - known finding - so the Hermiticity / derivative contracts do not apply there)."""
+    """Small SCF, one steepest-descent step; default: an odd sampling (callers pass even ones where the Nyquist planes matter)."""
     import eminus
     from eminus import SCF
 
@@ -194,11 +198,11 @@ def _native_scf(Nspin=1, xc="lda,pw", s=(7, 5, 5), atom="He"):
     return scf, scf.atoms
 
 
-def nat_H_hermitian(rng):
+def nat_H_hermitian(rng, s=(7, 5, 5)):
     from eminus.dft import H as Hn, H_precompute
 
     # Ca: s and p channels with two projectors each, one d projector (off-diagonal couplings in l = 0 and l = 1)
-    scf, at = _native_scf(Nspin=2, atom="Ca")
+    scf, at = _native_scf(Nspin=2, atom="Ca", s=s)
     W = [rnd(rng, 2, len(at.Gk2c[ik]), at.occ.Nstate) for ik in range(at.kpts.Nk)]
     dn, phi, vxc, vs, vt = H_precompute(scf, scf.W)
     e = 0
@@ -211,6 +215,11 @@ def nat_H_hermitian(rng):
             r = ha.conj().T @ W[ik][s]
             e = max(e, np.abs(l - r).max() / max(1.0, np.abs(l).max()))
     return e
+
+
+def nat_H_hermitian_even(rng):
+    """Coarse EVEN sampling of a triclinic cell: the density has weight on the Nyquist planes."""
+    return nat_H_hermitian(rng, s=(6, 6, 4))
 
 
 def nat_H_linear(rng):
@@ -333,10 +342,12 @@ def nat_Eband(rng):
     from eminus.dft import get_epsilon
     from eminus.energies import get_Eband
 
+    from eminus.dft import orth
+
     scf, at = _native_scf(Nspin=2)
     eps = get_epsilon(scf, scf.W)
     want = sum(at.kpts.wk[ik] * eps[ik].sum() for ik in range(at.kpts.Nk))
-    return abs(get_Eband(scf, scf.Y) - want)
+    return abs(get_Eband(scf, orth(at, scf.W)) - want)  # scf.Y may lag one step behind scf.W after run()
 
 
 # =================================================================================================
@@ -657,7 +668,7 @@ def nat_phi(rng):
     nG = at.J(n)
     nG0 = nG.copy()
     nG0[0] = 0
-    e = np.abs(at.L(phi) + 4 * np.pi * at.O(nG0)).max()
+    e = np.abs(at.L(phi[:, None])[:, 0] + 4 * np.pi * at.O(nG0)).max()  # L acts on matrices only (its docstring: options 3 and 5)
     e = max(e, abs(phi[0]))
     m = rng.random(at.Ns)
     e = max(e, np.abs(get_phi(at, 2 * n + m) - 2 * phi - get_phi(at, m)).max())
@@ -736,6 +747,9 @@ def _register():
         ("C05", "C05.H.hermitian", sym_H_hermitian, nat_H_hermitian, [f"{dft}:H", "eminus.gth:calc_Vnonloc", "eminus.operators:L",
                                                                       "eminus.operators:I", "eminus.operators:Idag"],
          N_ + ("fft", "callee-contract"), "<a|H b> = <H a|b> for real local potentials and symmetric GTH coupling matrices (LDA-type potentials)"),
+        ("C05", "C05.H.hermitian.any_reciprocal_field", sym_H_hermitian_any_field, nat_H_hermitian_even, [f"{dft}:H", "eminus.operators:Jdag", "eminus.operators:O"],
+         N_ + ("fft", "callee-contract"),
+         "<a|H b> = <H a|b> for an ARBITRARY complex reciprocal-space Hartree field: the local potential applied by H is the REAL part of its real-space image (replay: coarse even sampling of a triclinic cell)"),
         ("C05", "C05.get_psi_get_epsilon.subspace_diagonalisation", sym_get_psi, nat_get_psi, [f"{dft}:get_psi", f"{dft}:get_epsilon", f"{dft}:orth", f"{dft}:H"],
          N_ + ("eigh", "sqrtm", "inv", "similarity", "interlacing", "callee-contract"),
          "get_psi: orthonormal rotation of orth(W) that diagonalises Y^H H Y; get_epsilon: its ascending eigenvalues; orth(W M) = orth(W) R with R unitary for invertible M"),
@@ -857,6 +871,49 @@ def _register_bounded2():
                         doc="BOUNDED stand-in: band-energy derivative relation at orthonormal coefficients (fixed Hamiltonian)"))
 
 
+def nat_grad_coarse_even_grid(xc):
+    def f(rng):
+        """The derivative relation on a user-chosen COARSE EVEN sampling (smaller than the default one): products of orbitals reach the
+        Nyquist planes of the FFT box."""
+        import eminus
+        from eminus import SCF, Atoms
+        from eminus.dft import get_grad, guess_random
+        from eminus.energies import get_E
+
+        eminus.config.backend = "numpy"
+        eminus.config.verbose = "critical"
+        at = Atoms(["Li", "H"], [[0.2, 0.1, 0.3], [0.4, 0.2, 3.1]], ecut=4, a=[[6.0, 0.3, 0.1], [0.2, 6.5, 0.4], [0.5, 0.1, 7.0]])
+        at.s = [6, 6, 8]
+        scf = SCF(at, xc=xc, verbose="critical")
+        at = scf.atoms
+        W = [np.asarray(w) for w in guess_random(scf)]
+        W = [w @ (np.eye(w.shape[-1]) + 0.3 * rnd(rng, w.shape[-1], w.shape[-1])) for w in W]
+        D = [rnd(rng, *w.shape) for w in W]
+        D = [d * np.linalg.norm(w) / np.linalg.norm(d) for w, d in zip(W, D)]
+
+        def E(t):
+            scf.W = [w + t * d for w, d in zip(W, D)]
+            scf._precompute()
+            return get_E(scf)
+
+        scf.W = [w.copy() for w in W]
+        scf._precompute()
+        ana = sum(2 * np.real(np.vdot(np.asarray(get_grad(scf, ik, sp, scf.W, **scf._precomputed)), D[ik][sp])) for ik in range(at.kpts.Nk) for sp in range(at.occ.Nspin))
+        h = 1e-3
+        num = (8 * (E(h) - E(-h)) - (E(2 * h) - E(-2 * h))) / (12 * h)
+        return abs(ana - num) / abs(num)
+    return f
+
+
+def _register_coarse():
+    for xc, tag in (("lda,vwn", "lda"), ("pbe", "pbe")):
+        register(Obligation(name=f"C01.total_energy.slope_eq_2Re_grad_D.coarse_even_grid.{tag}", prop="C01", engine="B", bounded=True,
+                            functions=["eminus.dft:get_grad", "eminus.dft:H", "eminus.gga:gradient_correction", "eminus.energies:get_E"],
+                            run=BoundedNative(nat_grad_coarse_even_grid(xc), 1, tol=1e-6, what=f"slope of the total energy vs 2 Re<grad, D> on the coarse even sampling s = (6, 6, 8), xc = {xc}"),
+                            budget={"quick": 200, "thorough": 400},
+                            doc="BOUNDED: derivative relation on a coarse even FFT sampling (orbital products reach the Nyquist planes)"))
+
+
 def nat_hermitian_even_grid_gga(rng):
     """H on the default (even) FFT grid with a GGA: |<a|Hb> - <Ha|b>| relative to |<a|Hb>|."""
     import eminus
@@ -886,4 +943,5 @@ def _register_even_grid():
 
 _register_bounded()
 _register_bounded2()
+_register_coarse()
 _register_even_grid()
